@@ -45,7 +45,7 @@ package multicast
 //@ spec func inKn(g *Group, x boson.Address) bool = psMem(deref(g.knownPeers), x)
 
 //@ func (*Group).add
-//@   property C38
+//@   property C38 C37:safety
 //@   requires g != nil && groupOK(g)
 //@   ensures in-exactly-one-list: (inC(g, peer) || inK(g, peer) || inKn(g, peer)) && !(inC(g, peer) && inK(g, peer)) && !(inC(g, peer) && inKn(g, peer)) && !(inK(g, peer) && inKn(g, peer))
 //@   ensures connected-only-if-a-direct-neighbour: inC(g, peer) ==> keep && isNb(ref(g.srv.route), peer)
@@ -54,7 +54,7 @@ package multicast
 //@   ensures other-peers-untouched: forall x boson.Address :: x != peer ==> (inC(g, x) <==> old(inC(g, x))) && (inK(g, x) <==> old(inK(g, x))) && (inKn(g, x) <==> old(inKn(g, x)))
 
 //@ func (*Group).remove
-//@   property C38
+//@   property C38 C37:safety
 //@   requires g != nil && groupOK(g)
 //@   ensures gone-from-connected-and-kept: !inC(g, peer) && !inK(g, peer)
 //@   ensures known-only-when-asked: inKn(g, peer) ==> intoKnown
@@ -63,7 +63,7 @@ package multicast
 //@   ensures other-peers-untouched: forall x boson.Address :: x != peer ==> (inC(g, x) <==> old(inC(g, x))) && (inK(g, x) <==> old(inK(g, x))) && (inKn(g, x) <==> old(inKn(g, x)))
 
 //@ func (*Group).pruneKnown
-//@   property C38
+//@   property C38 C37:safety
 //@   requires g != nil && groupOK(g)
 //@   ensures only-known-shrinks: forall x boson.Address :: (inC(g, x) <==> old(inC(g, x))) && (inK(g, x) <==> old(inK(g, x))) && (inKn(g, x) ==> old(inKn(g, x)))
 //@   loop 1 invariant 0 - 1 <= rangeindex && rangeindex < len(peers)
@@ -88,10 +88,89 @@ package multicast
 //@   assigns nothing
 //@ func (*Service).getGroup
 //@   trusted
+//@   ensures result != nil ==> result.connectedPeers != nil && result.keepPeers != nil && result.knownPeers != nil
 //@   assigns nothing
 //@ func (*Service).onMulticast
-//@   property C38
+//@   property C38 C37:safety
 //@   requires s != nil && stream != nil && s.logger != nil && cache != nil && cache.localAdapter != nil
 //@   callassert Group.notifyMulticast delivered-once-per-key: setOK && !(origin == s.self)
 //@   callassert Service.Multicast forwarded-once-per-key: setOK && !(origin == s.self)
 //@   callassert Service.notifyLogContent logged-once-per-key: setOK && !(origin == s.self)
+
+//@ # ---- C37: no message from a remote peer makes the group protocols panic ------------------------
+//@ extern func (github.com/gauss-project/aurorafs/pkg/p2p/protobuf.Reader).ReadMsgWithContext
+//@   assigns target(msg)
+//@ extern func (github.com/gauss-project/aurorafs/pkg/p2p/protobuf.Writer).WriteMsgWithContext
+//@   assigns nothing
+//@ extern func github.com/gauss-project/aurorafs/pkg/p2p/protobuf.NewWriterAndReader
+//@   assigns nothing
+//@ extern func github.com/gauss-project/aurorafs/pkg/p2p/protobuf.NewReader
+//@   assigns nothing
+//@ extern func github.com/gauss-project/aurorafs/pkg/p2p/protobuf.NewWriter
+//@   assigns nothing
+//@ extern func (github.com/gauss-project/aurorafs/pkg/p2p.Stream).Reset
+//@   assigns nothing
+//@ extern func (github.com/gauss-project/aurorafs/pkg/p2p.Stream).FullClose
+//@   assigns nothing
+//@ extern func (github.com/gauss-project/aurorafs/pkg/p2p.Stream).Close
+//@   assigns nothing
+//@ extern func github.com/gauss-project/aurorafs/pkg/boson.NewAddress
+//@   assigns nothing
+//@ extern func (github.com/gauss-project/aurorafs/pkg/topology.Driver).RecordPeerLatency
+//@   assigns nothing
+//@ extern func (*github.com/gauss-project/aurorafs/pkg/topology/pslice.PSlice).EachBin
+//@   iterates arg1
+//@   assigns nothing
+//@ extern func github.com/gogf/gf/v2/os/gcache.SetIfNotExist
+//@   assigns nothing
+//@ # local parts that do not look at message content (a group handed out exists and is well formed)
+//@ extern func (*Service).getStream
+//@   ensures err == nil ==> result0 != nil
+//@   assigns nothing
+//@ extern func (*Service).getGroupOrCreate
+//@   ensures result != nil && groupOK(result)
+//@   assigns nothing
+//@ extern func (*Service).getGIDsByte
+//@   assigns nothing
+//@ extern func (*Service).getForwardNodes
+//@   assigns nothing
+//@ extern func (*Service).updatePeerGroupsJoin
+//@   assigns nothing
+
+//@ spec func mcOK(s *Service) bool = s != nil && s.logger != nil && s.kad != nil && s.route != nil
+
+//@ func ConvertGIDs
+//@   property C37
+//@   loop 1 invariant 0 - 1 <= rangeindex && rangeindex < len(GIDs)
+
+//@ func (*Service).onNotify
+//@   property C37
+//@   requires mcOK(s) && stream != nil
+//@   loop 1 invariant mcOK(s) && 0 - 1 <= rangeindex1 && rangeindex1 < len(msg.Gids)
+//@   loop 2 invariant mcOK(s) && 0 - 1 <= rangeindex2 && rangeindex2 < len(msg.Gids)
+
+//@ func (*Service).HandshakeIncoming
+//@   property C37
+//@   requires mcOK(s) && stream != nil
+
+//@ func (*Service).Handshake
+//@   property C37
+//@   requires mcOK(s)
+
+//@ func (*Service).getGroupNode
+//@   property C37
+//@   requires mcOK(s) && req != nil
+//@   loop 1 invariant mcOK(s) && 0 - 1 <= rangeindex && rangeindex < len(resp.Addresses)
+
+//@ func (*Service).onFindGroup
+//@   property C37
+//@   requires mcOK(s) && stream != nil
+//@   loop 1 invariant mcOK(s) && req != nil && 0 - 1 <= rangeindex1 && rangeindex1 < len(req.Paths)
+//@   loop 2 invariant mcOK(s) && req != nil && resp != nil && 0 - 1 <= rangeindex2 && rangeindex2 < len(nodes)
+//@   loop 3 invariant mcOK(s) && req != nil && resp != nil && 0 - 1 <= rangeindex3 && rangeindex3 < len(finds)
+
+//@ func (*Service).onFindGroup$2
+//@   property C37
+//@   requires req != nil && resp != nil
+//@   assigns resp.Addresses, region(resp.Addresses)
+//@   iterinv message-objects-exist: req != nil && resp != nil
